@@ -613,6 +613,46 @@ class Bus:
         return out
 
 
+class UnitBus:
+    """Adapter used by the gateway models of drvsim ('stacked' transport): the
+    frames a real driver sends through a gateway model reach the unit models.
+    A send-twice command is delivered as two identical frames within 100 ms."""
+
+    def __init__(self, world, units):
+        self.world = world
+        self.units = list(units)
+        self.outcomes = {}
+        self.transmissions = []
+        self.frames = []
+
+    def _deliver(self, bits, value, t_us):
+        answers = []
+        garbled = False
+        for u in self.units:
+            a = u.receive(bits, value, t_us)
+            if getattr(u, "garble_next", False):
+                u.garble_next = False
+                garbled = True
+            if a is not None:
+                answers.append(a)
+        if not answers:
+            out = ("silent",)
+        elif len(answers) == 1 and not garbled:
+            out = ("value", answers[0])
+        else:
+            out = ("error", answers[0])
+        self.frames.append((t_us, bits, value, out))
+        return out
+
+    def transmit(self, bits, value, twice, end_us, unit, src):
+        if twice:
+            self._deliver(bits, value, end_us - 40_000)
+        out = self._deliver(bits, value, end_us)
+        self.transmissions.append((end_us, src, unit, bits, value, twice, out))
+        self.world.log.add(end_us * 1e-6, "bus", src, (bits, value, twice, out))
+        return out
+
+
 class SeqRun:
     """Result of stepping one sequence."""
 
